@@ -7,6 +7,8 @@ usage: c15_impl.py <runname> <n> <mode> <plan-json>
    plan  [[k, j], ...]                 k-th entered block (per process), j-th counted line event (-1: after the body)
       or {"call": {"max_param": 3, "check_perm": true, "expand_fun": false}, "nth": 0, "kinds": ["KA","KB","KC","KD"], "j": 0}
                                        every block of those kinds inside the nth sympy_simplify call with these arguments
+      or {"all_kinds": ["KR"], "j": 0, "max": 1000}
+                                       every block of those kinds is interrupted at line event j (e.g. every result check)
       or {"after_lines": [374, 379], "kinds": ["KA"], "max": 8}
                                        every block of those kinds is interrupted right after it executed one of these source lines
                                        (a state effect, e.g. the append of 'nan'), at most max times
@@ -81,6 +83,12 @@ sel_count = dict(n=0, active=False)
 def plan_fn(k, func, with_line):
     if not isinstance(plan, dict):
         return None
+    if "all_kinds" in plan:
+        # every block of these kinds (in any function) is interrupted at counted line event j, at most plan["max"] times
+        if inj.kind_of.get(with_line) in plan["all_kinds"] and state.get("all_budget", 0) > 0:
+            state["all_budget"] -= 1
+            return int(plan["j"])
+        return None
     if "after_lines" in plan:
         # every block of these kinds: interrupt right after one of the given source lines has executed (at most plan["max"] times)
         if inj.kind_of.get(with_line) in plan["kinds"]:
@@ -97,6 +105,8 @@ def plan_fn(k, func, with_line):
 inj = tinject.Injector(S, plan=plan if (mode == "inject" and isinstance(plan, list)) else (),
                        trace_all=(mode in ("census", "inject")), snap=snap,
                        plan_fn=plan_fn if mode == "inject" else None).install()
+if mode == "inject" and isinstance(plan, dict) and "all_kinds" in plan:
+    state["all_budget"] = int(plan.get("max", 10 ** 6))
 if mode == "inject" and isinstance(plan, dict) and "after_lines" in plan:
     inj.after_budget = int(plan.get("max", 8))
 # with-line -> kind, structurally: the five blocks of sympy_simplify in source order, then the other two
